@@ -4,6 +4,7 @@ package main
 // the pool's view, blocks built from what is pending) and emits explicit, replayable operations.
 
 import (
+	"fmt"
 	"strconv"
 	"strings"
 	"sync"
@@ -195,8 +196,10 @@ func genHistory(run *hx.Run, r *hx.Rng, maxOps int) *History {
 				seen = append(seen, t)
 			}
 		}
-		sim.apply(o)
 		h.Ops = append(h.Ops, o)
+		if p := hx.Safe(func() string { sim.apply(o); return "" }); p != "" {
+			break // the code under test panicked; runHistory reproduces and reports it
+		}
 	}
 	return h
 }
@@ -229,6 +232,11 @@ func concurrentRun(run *hx.Run, r *hx.Rng) {
 		rg := r.Fork(uint64(g))
 		go func() {
 			defer wg.Done()
+			defer func() {
+				if e := recover(); e != nil {
+					run.Violate("concurrent-panic", "concurrent-panic", h.Cfg, fmt.Sprint(e))
+				}
+			}()
 			for i := 0; i < 150; i++ {
 				st := Observe(w, sim.pool)
 				t := genTx(rg, st)
